@@ -482,6 +482,10 @@ class sptensor:
         array([6., 7.])
         """
         dims, _ = tt_dimscheck(self.ndims, dims=dims)
+        if np.any(dims >= self.ndims):
+            raise ValueError(
+                f"Dims to collapse must be in [0, {self.ndims}) but received {dims}"
+            )
         remdims = np.setdiff1d(np.arange(0, self.ndims), dims)
 
         # Check for the case where we accumulate over *all* dimensions
